@@ -69,6 +69,7 @@ class HedSchemaSection:
         return_entry = self._check_if_duplicate(name_key, new_entry)
 
         self.all_entries.append(new_entry)
+        self._attribute_cache = {}  # the entries changed: finished attribute lists are stale
         return return_entry
 
     def get_entries_with_attribute(self, attribute_name, return_name_only=False, schema_namespace=""):
